@@ -58,12 +58,18 @@ def gen_data(rng, tier, latent=False):
     allowed = [rng.sample(range(card[v]), rng.randint(1, card[v])) if rng.random() < .4 else list(range(card[v])) for v in range(n)]
     rows = [[rng.choice(allowed[v]) for v in range(n)] for _ in range(nrows)]
     weights = None
-    if rng.random() < .25:
-        weights = [rs(Fraction(rng.randint(1, 6), 2)) for _ in range(nrows)]
+    if rng.random() < .3:
+        if rng.random() < .5:
+            weights = [rs(Fraction(rng.randint(1, 6), 2)) for _ in range(nrows)]
+        else:
+            # small weights: a parent configuration that does occur can have a total weight below 1
+            weights = [rs(Fraction(rng.randint(1, 9), rng.choice([20, 50, 100]))) for _ in range(nrows)]
     return {"cols": cols, "card": card, "labels": labels, "edges": edges, "rows": rows, "weights": weights, "dtype": dtype,
             "pass_state_names": True if declared_perm or any(len(set(r[v] for r in rows)) < card[v] for v in range(n)) else rng.random() < .5,
             "declared_perm": declared_perm,
-            "n_jobs": rng.choice([1, 1, 2])}
+            "n_jobs": rng.choice([1, 1, 2]),
+            # row labels of the frame: counts do not depend on them
+            "index": rng.choice(["range", "range", "offset", "str", "shuffled"])}
 
 
 def make_df(case, include_weight=True):
@@ -79,6 +85,16 @@ def make_df(case, include_weight=True):
     df = pd.DataFrame(d)
     if case["weights"] and include_weight:
         df["_weight"] = [float(Fraction(w)) for w in case["weights"]]
+    ik = case.get("index", "range")
+    if ik == "offset":
+        df.index = [2 * i + len(df) for i in range(len(df))]        # labels outside 0..n-1
+    elif ik == "str":
+        df.index = ["row%d" % i for i in range(len(df))]
+    elif ik == "shuffled":
+        import random
+        lab = list(range(len(df)))
+        random.Random(len(df)).shuffle(lab)
+        df.index = lab
     return df
 
 
